@@ -188,6 +188,35 @@ func (c *Ctx) ERRRET(rule string) []report.Obligation {
 	} else {
 		out = append(out, anchorViolation(rule, "dotenv.(*parser).extractVarValue"))
 	}
+	// expanded text is final: what expandVariables returns is stored or returned, never scanned again
+	// (comment stripping, trimming, un-escaping happen on the source text, before interpolation)
+	nexp := 0
+	for _, f := range c.P.Funcs {
+		if !strings.HasPrefix(c.P.FuncID(f), "dotenv.") {
+			continue
+		}
+		for _, ci := range c.callsTo(f, "dotenv.expandVariables") {
+			nexp++
+			v := ci.(ssa.Value)
+			var rescans []string
+			for _, use := range valueUses(v, 4) {
+				switch u := use.(type) {
+				case *ssa.Return, *ssa.MapUpdate, *ssa.Store, *ssa.If, *ssa.BinOp:
+				case ssa.CallInstruction:
+					rescans = append(rescans, c.P.InstrPos(u)+" "+staticName(u.Common()))
+				default:
+					_ = u
+				}
+			}
+			key := c.P.FuncID(f) + " :: result of expandVariables is final"
+			out = append(out, verdict(len(rescans) == 0, rule, key, c.P.InstrPos(ci),
+				"the interpolated text only flows to the function's results",
+				"the interpolated text is processed again as source ("+strings.Join(rescans, ", ")+"): a ` #`, trailing blanks or escapes inside a variable's value are then treated as syntax, and comment text is interpolated"))
+		}
+	}
+	if nexp == 0 {
+		out = append(out, anchorViolation(rule, "calls of dotenv.expandVariables"))
+	}
 	if f := c.P.Func("dotenv.(*parser).locateKeyName"); f != nil {
 		good := false
 		for _, r := range returnsOf(f) {
